@@ -653,7 +653,10 @@ class Evaluator:
                 self._assign(t, v)
         elif isinstance(target, ast.Subscript):
             base = self.ev(target.value)
-            base[self.ev(target.slice)] = value
+            try:
+                base[self.ev(target.slice)] = value
+            except (TypeError, IndexError, KeyError) as e:
+                raise Raised(type(e).__name__)   # the store itself fails in the program (wrong container kind, index out of range)
         elif isinstance(target, ast.Attribute):
             base = self.ev(target.value)
             if not isinstance(base, Obj):
